@@ -537,6 +537,6 @@ impl Family for Chaos {
         out.into_iter().map(|s| serde_json::to_value(s).unwrap()).collect()
     }
     fn watchdog_ms(&self) -> u64 {
-        120_000
+        90_000
     }
 }
